@@ -111,6 +111,8 @@ def assemble(unit, workdir, canary=False, canary_loops=False):
     parts = [HEADER]
     for p in unit.get("prelude", []):
         parts.append(open(os.path.join(ROOT, "prelude", p)).read())
+    for t in unit.get("opaque_types", []):
+        parts.append(f"#[verifier::external_body] pub struct {t} {{ _p: () }}  // opaque: content irrelevant to this unit (assumption)\n")
     pre_lines = sum(s.count("\n") for s in parts)
     parts.append(open(woven).read())
     for p in unit.get("spec", []):
